@@ -65,3 +65,18 @@ Theorem C17_replace_and_node_step_commute : forall s f t sl structure st pos doc
     DT s dab = DT s dba.
 Proof. exact node_step_after_replace_commute. Qed.
 Print Assumptions C17_replace_and_node_step_commute.
+
+(* ... and with the node-level step BEFORE the replaced range (pos < f): neither step moves, neither is dropped, and
+   both orders give the same token sequence *)
+Theorem C17_node_step_before_replace_commute : forall s f t sl structure st pos doc da db,
+  check s doc = true -> valid_end s 0 = true ->
+  OpenOK s (sl_content sl) (sl_open_start sl) (sl_open_end sl) -> f <= t -> pos < f -> is_node_step st = Some pos ->
+  apply s (SReplace f t sl structure) doc = ROk da ->
+  apply s st doc = ROk db ->
+  step_map st (get_map s (SReplace f t sl structure)) = Some st /\
+  step_map (SReplace f t sl structure) (get_map s st) = Some (SReplace f t sl false) /\
+  forall dab dba,
+    apply s st da = ROk dab -> apply s (SReplace f t sl false) db = ROk dba ->
+    DT s dab = DT s dba.
+Proof. exact node_step_before_replace_commute. Qed.
+Print Assumptions C17_node_step_before_replace_commute.
